@@ -23,8 +23,12 @@ TECHNIQUE = "runtime contract (postcondition + call counter) on the real unify, 
 RULE = ("chains of 1-4 related pairs per case over numeric/bool/None/str/qubit, tuples, functions (with "
         "owned/borrowed qubit inputs), array/option/list, generic structs, <=5 existential type vars, "
         "<=2 const vars, bound vars; second terms are derived from the first by variable abstraction / "
-        "subterm replacement so that about half unify. distinct = (shape s, shape t) pairs")
-FLOORS = {"unify_calls_top": 1000, "contract_evaluations": 2000, "expected_success": 100,
+        "subterm replacement so that about half unify; every fourth case is a module of 14 generic "
+        "call sites (declared generic functions over T, U, n with tuple/array patterns; arguments "
+        "as names and tuple displays; synthesis, annotated-target and explicit-application forms) "
+        "whose accept/reject must equal first-order matching. distinct = (shape s, shape t) pairs")
+FLOORS = {"generic_call_sites": 100, "generic_calls_expected_accept": 20, "generic_calls_expected_reject": 20,
+          "unify_calls_top": 1000, "contract_evaluations": 2000, "expected_success": 100,
           "expected_failure": 100}
 
 ENV = None
@@ -313,10 +317,222 @@ def derive(rng, s, gen):
     return t
 
 
+# ------------------------------------------------------------------------------ workload B
+# Generic-call programs through the real checker.  Argument types are ground, so "an instantiation
+# of the parameters makes the arguments fit" is first-order matching with consistent bindings —
+# decided here by a 15-line matcher.  Ground types avoid nat/float, so no implicit coercion can make
+# a non-matching call acceptable.
+
+B_GROUND = [("int",), ("bool",), ("tuple", ("int",), ("bool",)), ("tuple", ("int",), ("int",)),
+            ("tuple", ("bool",), ("bool",)), ("tuple", ("tuple", ("int",), ("int",)), ("bool",)),
+            ("array", ("int",), 2), ("array", ("bool",), 2), ("array", ("int",), 3)]
+B_PATTERNS = [("var", "T"), ("var", "U"), ("tuple", ("var", "T"), ("var", "T")),
+              ("tuple", ("var", "T"), ("var", "T")), ("tuple", ("var", "U"), ("var", "T"), ("var", "U")),
+              ("tuple", ("var", "T"), ("tuple", ("var", "T"), ("var", "T"))),
+              ("tuple", ("var", "T"), ("var", "U")), ("tuple", ("var", "U"), ("var", "T")),
+              ("tuple", ("var", "T"), ("int",)), ("tuple", ("tuple", ("var", "T"), ("var", "U")), ("var", "T")),
+              ("tuple", ("tuple", ("var", "T"), ("var", "T")), ("var", "U")),
+              ("array", ("var", "T"), 2), ("array", ("var", "T"), "n"), ("array", ("var", "U"), "n"),
+              ("int",), ("bool",)]
+
+
+def b_code(t):
+    k = t[0]
+    if k in ("int", "bool"):
+        return k
+    if k == "var":
+        return t[1]
+    if k == "tuple":
+        return "tuple[" + ", ".join(b_code(e) for e in t[1:]) + "]"
+    return f"array[{b_code(t[1])}, {t[2]}]"
+
+
+def b_copyable(t):
+    return t[0] != "array" and all(b_copyable(e) for e in t[1:] if isinstance(e, tuple))
+
+
+def b_match(pat, g, env):
+    """One-way matching of a pattern against a ground type; env maps type/nat variables."""
+    k = pat[0]
+    if k == "var":
+        if not b_copyable(g):
+            return False  # T, U are declared copyable + droppable
+        if pat[1] in env:
+            return env[pat[1]] == g
+        env[pat[1]] = g
+        return True
+    if k != g[0] or len(pat) != len(g):
+        return False
+    if k == "array":
+        n = pat[2]
+        if isinstance(n, str):
+            if n in env and env[n] != g[2]:
+                return False
+            env[n] = g[2]
+        elif n != g[2]:
+            return False
+        return b_match(pat[1], g[1], env)
+    return all(b_match(p_, g_, env) for p_, g_ in zip(pat[1:], g[1:]))
+
+
+def b_inst(pat, env):
+    k = pat[0]
+    if k == "var":
+        return env[pat[1]]
+    if k == "array":
+        return ("array", b_inst(pat[1], env), env[pat[2]] if isinstance(pat[2], str) else pat[2])
+    if k == "tuple":
+        return ("tuple", *[b_inst(e, env) for e in pat[1:]])
+    return pat
+
+
+def b_vars(pat, acc):
+    if pat[0] == "var":
+        acc.add(pat[1])
+    elif pat[0] == "array":
+        if isinstance(pat[2], str):
+            acc.add(pat[2])
+        b_vars(pat[1], acc)
+    else:
+        for e in pat[1:]:
+            if isinstance(e, tuple):
+                b_vars(e, acc)
+    return acc
+
+
+def b_perturb_leaf(rng, g):
+    if g[0] == "tuple":
+        j = rng.randrange(1, len(g))
+        return (*g[:j], b_perturb_leaf(rng, g[j]), *g[j + 1:])
+    if g[0] == "array":
+        return ("array", g[1], 5 - g[2]) if rng.random() < 0.5 else ("array", b_perturb_leaf(rng, g[1]), g[2])
+    return rng.choice([x for x in [("int",), ("bool",), ("tuple", ("int",), ("int",))] if x != g])
+
+
+def b_program(rng, nsites=14):
+    """-> (module text, [(site function name, expected accept, description)])"""
+    L = ["from guppylang import guppy", "from guppylang.std.builtins import array, owned", "",
+         'T = guppy.type_var("T")', 'U = guppy.type_var("U")', 'n = guppy.nat_var("n")', ""]
+    sites = []
+    copy_ground = [g for g in B_GROUND if b_copyable(g)]
+    for k in range(nsites):
+        nparams = rng.randint(1, 3)
+        pats = [rng.choice(B_PATTERNS) for _ in range(nparams)]
+        pvars = set()
+        for p_ in pats:
+            b_vars(p_, pvars)
+        ret_cands = [p_ for p_ in B_PATTERNS if b_vars(p_, set()) <= pvars and p_[0] != "array"]
+        ret = rng.choice(ret_cands)
+        L.append("@guppy.declare")
+        L.append(f"def g{k}({', '.join(f'a{i}: {b_code(p_)}' for i, p_ in enumerate(pats))}) -> {b_code(ret)}: ...")
+        L.append("")
+        # argument ground types: an instance of the patterns, perturbed half of the time
+        env0 = {"T": rng.choice(copy_ground), "U": rng.choice(copy_ground), "n": rng.choice([2, 3])}
+        args = [b_inst(p_, env0) for p_ in pats]
+        r_ = rng.random()
+        if r_ < 0.2:
+            i = rng.randrange(nparams)
+            args[i] = rng.choice(B_GROUND)
+        elif r_ < 0.55:
+            # change one leaf of one argument type (so mismatches sit *inside* tuple displays)
+            i = rng.randrange(nparams)
+            args[i] = b_perturb_leaf(rng, args[i])
+        env = {}
+        ok = all(b_match(p_, a, env) for p_, a in zip(pats, args))
+        # site function: one parameter per leaf of every argument expression
+        params, exprs = [], []
+
+        def build(g, depth):
+            if g[0] == "tuple" and rng.random() < (0.8 if depth == 0 else 0.5):
+                return "(" + ", ".join(build(e, depth + 1) for e in g[1:]) + ")"
+            name = f"p{len(params)}"
+            params.append(f"{name}: {b_code(g)}")
+            return name
+
+        for a in args:
+            exprs.append(build(a, 0))
+        call = f"g{k}({', '.join(exprs)})"
+        mode = rng.choice(["synth", "synth", "check", "check_wrong", "apply"])
+        if mode == "apply" and ok and all(isinstance(v, str) for v in pvars) and "n" not in pvars and pvars:
+            # explicit type application in declaration order of the variables' first use
+            order = []
+            for p_ in pats:
+                for v in _b_order(p_):
+                    if v not in order:
+                        order.append(v)
+            call = f"g{k}[{', '.join(b_code(env[v]) for v in order)}]({', '.join(exprs)})"
+            body = f"    r = {call}"
+        elif mode == "check" and ok:
+            body = f"    r: {b_code(b_inst(ret, env))} = {call}"
+        elif mode == "check_wrong" and ok:
+            want = b_inst(ret, env)
+            wrong = rng.choice([g for g in copy_ground if g != want])
+            body = f"    r: {b_code(wrong)} = {call}"
+            ok = False
+        else:
+            body = f"    r = {call}"
+        L.append("@guppy")
+        L.append(f"def site{k}({', '.join(params)}) -> None:")
+        L.append(body)
+        L.append("")
+        sites.append((f"site{k}", ok, f"{[b_code(p_) for p_ in pats]} <- {[b_code(a) for a in args]} [{mode}]"))
+    return "\n".join(L) + "\n", sites
+
+
+def _b_order(pat):
+    if pat[0] == "var":
+        yield pat[1]
+    elif pat[0] == "array":
+        yield from _b_order(pat[1])
+    elif pat[0] == "tuple":
+        for e in pat[1:]:
+            yield from _b_order(e)
+
+
+def run_case_b(ctx, rng, idx):
+    from vf import ctx as C
+
+    text, sites = b_program(rng)
+    ld = ctx.load(text, "gencall")
+    viols = []
+    counters = {"generic_call_sites": 0, "generic_calls_expected_accept": 0, "generic_calls_expected_reject": 0}
+    shapes = set()
+    for name, ok, desc in sites:
+        counters["generic_call_sites"] += 1
+        counters["generic_calls_expected_accept" if ok else "generic_calls_expected_reject"] += 1
+        shapes.add("B:" + hashlib.sha1(desc.encode()).hexdigest()[:12])
+        try:
+            getattr(ld.module, name).check()
+            got = True
+        except BaseException as e:
+            if C.raised_in_harness(e):
+                raise
+            if not C.is_guppy_error(e):
+                viols.append({"mech": "C12:generic-call-crash:" + C.innermost_repo_frame(e),
+                              "witness": {"text": text, "site": name, "desc": desc}})
+                continue
+            got = False
+        if got != ok:
+            viols.append({"mech": "C12:generic-call-" + ("accepted-without-instantiation" if got else
+                                                           "rejected-although-instantiation-exists"),
+                          "witness": {"text": text, "site": name, "desc": desc}})
+    seen = set()
+    uniq = [v for v in viols if not (v["mech"] in seen or seen.add(v["mech"]))]
+    rec = {"status": "violated" if uniq else "held", "fp": f"caseB{idx}", "counters": counters,
+           "sets": {"pair_shapes": sorted(shapes)}}
+    if uniq:
+        rec["violations"] = uniq[:6]
+    if idx == 3:
+        rec["sample"] = {"generic_call_program": text[:1500]}
+    return rec
+
+
 def run_case(ctx, rng, idx, params, tier):
     from vf import ctx as C
     import guppylang_internals.tys.ty as tymod
 
+    if idx % 4 == 3:
+        return run_case_b(ctx, rng, idx)
     ENV.refresh()
     viols = []
     counters = {"unify_calls_top": 0, "expected_success": 0, "expected_failure": 0,
